@@ -8,6 +8,9 @@ be equal.  Steps:
   ('send_until', pub, sub, topic) publish numbered messages (polling sub in between) until one arrives -> obs True/False
       (a re-attached SUB loses an unspecified number of early publishes in reality: only eventual re-attachment is compared)
   ('pollseq', [(op, name)...], [names]) poller register/unregister sequence then poll -> ready names
+  ('bind_retry', name, addr)  bind, retrying while the address is still held by a socket that is being closed (no observation)
+  ('simflag', attr, value)    set an attribute of the simulated network (no-op on real sockets; picks which of two real behaviours the
+                              simulation shows when it models both, e.g. whether requests handed to a peer die with it)
 """
 
 T = lambda *p: [x.encode() if isinstance(x, str) else x for x in p]
@@ -138,4 +141,30 @@ CASES['push-linger0-close-discards'] = [
 CASES['push-linger0-close-after-linger-delivers'] = [   # what ZMQReceiver.destroy() relies on: send, explicit linger pause, close
     ('sock', 'pull', 'PULL'), ('bind', 'pull', 'A'), ('sock', 'push', 'PUSH'), ('opt', 'push', 'LINGER', 0), ('connect', 'push', 'A'), ('settle',),
     ('send', 'push', T('exit-msg'), True), ('settle',), ('close', 'push'), ('settle',), ('drain', 'pull'),
+]
+
+
+# after an established connection broke, a connecting socket re-attaches RECONNECT_IVL (+ jitter) later, never at once: the requests a
+# waiting consumer repeats every ZMQ_POLL_TIMEOUT (= RECONNECT_IVL) are therefore queued before a restarted publisher can reach it
+CASES['push-reconnects-after-ivl(tcp)'] = [
+    ('sock', 'pull', 'PULL'), ('bind', 'pull', 'tcp:47323'), ('sock', 'push', 'PUSH'), ('opt', 'push', 'LINGER', 0), ('opt', 'push', 'RECONNECT_IVL', 100),
+    ('connect', 'push', 'tcp:47323'), ('settle',), ('send', 'push', T('before'), True), ('settle',), ('drain', 'pull'),
+    ('close', 'pull'), ('sock', 'pull2', 'PULL'), ('bind_retry', 'pull2', 'tcp:47323'), ('send', 'push', T('after'), True),
+    ('poll', ['pull2'], 40), ('poll', ['pull2'], 400), ('drain', 'pull2'),
+]
+
+CASES['sub-reconnects-after-ivl(tcp)'] = [
+    ('sock', 'pub', 'PUB'), ('bind', 'pub', 'tcp:47324'), ('sock', 'sub', 'SUB'), ('opt', 'sub', 'RECONNECT_IVL', 100), ('connect', 'sub', 'tcp:47324'),
+    ('subscribe', 'sub', ''), ('settle',), ('send', 'pub', T('/a/', 'one'), False), ('settle',), ('drain', 'sub'),
+    ('close', 'pub'), ('sock', 'pub2', 'PUB'), ('bind_retry', 'pub2', 'tcp:47324'), ('send', 'pub2', T('/a/', 'early'), False),
+    ('poll', ['sub'], 40), ('settle',), ('settle',), ('settle',), ('send', 'pub2', T('/a/', 'late'), False), ('settle',), ('drain', 'sub'),
+]
+
+# a request that had reached the peer's process dies with the peer (the other real behaviour - still queued at the sender, delivered to
+# the next incarnation - is 'push-backlog-survives-peer-restart'); fault actions offer both
+CASES['push-handed-over-dies-with-peer(tcp)'] = [
+    ('simflag', 'close_drops_inbound', True),
+    ('sock', 'pull', 'PULL'), ('bind', 'pull', 'tcp:47325'), ('sock', 'push', 'PUSH'), ('opt', 'push', 'LINGER', 0), ('connect', 'push', 'tcp:47325'),
+    ('settle',), ('send', 'push', T('handed-over'), True), ('settle',), ('close', 'pull'), ('settle',),
+    ('sock', 'pull2', 'PULL'), ('bind_retry', 'pull2', 'tcp:47325'), ('settle',), ('settle',), ('settle',), ('drain', 'pull2'),
 ]
